@@ -54,21 +54,30 @@ theorem mask_eq (a : Nat) (h : a ≤ 31) : (bucketCapacity 0 - 1) >>> a = 2 ^ (3
   conv => lhs; rw [this]
   exact two_pow_sub_one_div (31 - a) a
 
-/-- Core computation: for a non-zero `u32`, `index i = (31 - log2 i, i - 2^(log2 i))`. -/
-theorem index_eq (i : Nat) (h0 : i ≠ 0) (h : i < 2 ^ 32) :
-    index i = some (31 - Nat.log2 i, i - 2 ^ Nat.log2 i) := by
+theorem idxA_eq (i : Nat) (h0 : i ≠ 0) : idxA i = 31 - Nat.log2 i := clz32_pos i h0
+
+theorem idxB_eq (i : Nat) (h0 : i ≠ 0) (h : i < 2 ^ 32) : idxB i = i - 2 ^ Nat.log2 i := by
   have hk := log2_lt_32 i h0 h
   have hlo : 2 ^ Nat.log2 i ≤ i := Nat.log2_self_le h0
   have hhi : i < 2 ^ (Nat.log2 i + 1) := Nat.lt_log2_self
-  unfold index
-  simp only [clz32_pos i h0]
-  have ha : ¬ (32 ≤ 31 - Nat.log2 i) := by omega
-  simp only [ha, if_false]
-  rw [mask_eq _ (by omega)]
+  unfold idxB
+  rw [idxA_eq i h0, mask_eq _ (by omega)]
   have hk' : 31 - (31 - Nat.log2 i) = Nat.log2 i := by omega
   rw [hk', Nat.and_two_pow_sub_one_eq_mod, Nat.mod_eq_sub_mod hlo]
   rw [Nat.pow_succ] at hhi
   rw [Nat.mod_eq_of_lt (by omega)]
+
+/-- Core computation: for a non-zero `u32`, `index i = (31 - log2 i, i - 2^(log2 i))`. -/
+theorem index_eq (i : Nat) (h0 : i ≠ 0) (h : i < 2 ^ 32) :
+    index i = some (31 - Nat.log2 i, i - 2 ^ Nat.log2 i) := by
+  have hk := log2_lt_32 i h0 h
+  unfold index
+  rw [idxB_eq i h0 h, idxA_eq i h0]
+  have ha : ¬ (32 ≤ 31 - Nat.log2 i) := by omega
+  simp only [ha, if_false]
+
+theorem index_eq_idx (i : Nat) (h0 : i ≠ 0) (h : i < 2 ^ 32) : index i = some (idxA i, idxB i) := by
+  rw [index_eq i h0 h, idxA_eq i h0, idxB_eq i h0 h]
 
 theorem index_zero : index 0 = none := by decide
 
@@ -182,5 +191,52 @@ theorem bucketCapacity_double (a : Nat) (h : a + 1 ≤ 31) :
   rw [bucketCapacity_eq a (by omega), bucketCapacity_eq (a + 1) h]
   have : 31 - a = (31 - (a + 1)) + 1 := by omega
   rw [this, Nat.pow_succ]; omega
+
+/-- The buckets `a … numSizes-1` together with the `minSize` unused low indices tile exactly the
+indices below the base of bucket `a - 1`. -/
+theorem capSum_tiles (n a : Nat) (h : a + n = numSizes) (hn : 0 < n) :
+    minSize + capSum a n = 2 * bucketCapacity a := by
+  induction n generalizing a with
+  | zero => omega
+  | succ n ih =>
+    cases n with
+    | zero =>
+      have ha : a = numSizes - 1 := by omega
+      subst ha
+      simp only [capSum, bucketCapacity_last]; omega
+    | succ m =>
+      have ih' := ih (a + 1) (by omega) (by omega)
+      have hns : numSizes ≤ 32 := by decide
+      have hd := bucketCapacity_double a (by omega)
+      rw [capSum]
+      omega
+
+/-- All buckets together hold exactly the indices `minSize ≤ i < 2^32`. -/
+theorem capSum_all : minSize + capSum 0 numSizes = 2 ^ 32 := by
+  rw [capSum_tiles numSizes 0 (by omega) (by decide), bucketCapacity_zero]
+
+/-- Number of slots `Drop` visits: the full buckets after `last_a` plus `last_b + 1` slots of
+bucket `last_a` are exactly the `l - minSize` slots handed out so far. -/
+theorem drop_count (l : Nat) (h1 : minSize < l) (h2 : l ≤ 2 ^ 32) :
+    capSum (idxA (l - 1) + 1) (numSizes - (idxA (l - 1) + 1)) + (idxB (l - 1) + 1) = l - minSize := by
+  obtain ⟨a, b, hidx, ha, hb, hrec⟩ := index_spec (l - 1) (by omega) (by omega)
+  have h0 : l - 1 ≠ 0 := by
+    have : 0 < minSize := by decide
+    omega
+  rw [index_eq_idx (l - 1) h0 (by omega)] at hidx
+  simp only [Option.some.injEq, Prod.mk.injEq] at hidx
+  obtain ⟨rfl, rfl⟩ := hidx
+  unfold bucketBase at hrec
+  by_cases hlast : idxA (l - 1) + 1 = numSizes
+  · have : numSizes - (idxA (l - 1) + 1) = 0 := by omega
+    rw [this, capSum]
+    have hc : bucketCapacity (idxA (l - 1)) = minSize := by
+      have : idxA (l - 1) = numSizes - 1 := by omega
+      rw [this, bucketCapacity_last]
+    omega
+  · have ht := capSum_tiles (numSizes - (idxA (l - 1) + 1)) (idxA (l - 1) + 1) (by omega) (by omega)
+    have hns : numSizes ≤ 32 := by decide
+    have hd := bucketCapacity_double (idxA (l - 1)) (by omega)
+    omega
 
 end IsoVerif.Arena
